@@ -2973,6 +2973,7 @@ template <typename T>
         report_missed("Unfulfilled expectation");
       }
       this->unlink();
+      sequences.reset(); // leave the sequences while the lock is held
     }
 
     bool
